@@ -1,4 +1,5 @@
 import GeoVerif.Model.GeoJson
+import GeoVerif.Spec.GeoJson
 import GeoVerif.Drv.Util
 /-!
 # Driver handler for C14 (stream prefix `gj`)
@@ -284,14 +285,6 @@ def kindD (s : String) : Option Kind :=
 
 /-! ### RFC 7946 shape of an exported document, decided on the model's output -/
 
-def pairsOf : List Pt → List (Pt × Pt)
-  | a :: b :: r => (a, b) :: pairsOf (b :: r)
-  | _ => []
-
-/-- twice the signed area of a closed ring (plain shoelace, positive = counter-clockwise) -/
-def area2 (ring : List Pt) : Rat :=
-  (pairsOf ring).foldl (fun acc e => acc + (e.1.1 * e.2.2 - e.2.1 * e.1.2)) 0
-
 def ptOfJ : J → Option Pt
   | .arr [.num a, .num b] => some (a, b)
   | .arr [.num a, .num b, .num _] => some (a, b)
@@ -301,9 +294,8 @@ def ringPts : J → Option (List Pt)
   | .arr xs => optAll (xs.map ptOfJ)
   | _ => none
 
-def wraps (r : List Pt) : Bool := (pairsOf r).any fun e => absR (e.1.1 - e.2.1) > 180
-
-/-- closed; exterior counter-clockwise, holes clockwise (skipped for rings with an antimeridian edge) -/
+/-- closed; exterior counter-clockwise, holes clockwise on the un-wrapped longitudes (`winding` of the Spec
+    file; a ring that runs around a pole has no winding and is not judged) -/
 def polyRingsOk (rings : List J) : String :=
   match optAll (rings.map ringPts) with
   | none => "bad:position"
@@ -312,8 +304,9 @@ def polyRingsOk (rings : List J) : String :=
     else match rs with
       | [] => "ok"
       | shell :: holes =>
-        if !wraps shell && area2 shell < 0 then "bad:exterior-clockwise"
-        else if holes.any (fun h => !wraps h && area2 h > 0) then "bad:hole-counter-clockwise"
+        if (match winding shell with | some w => decide (w < 0) | none => false) then "bad:exterior-clockwise"
+        else if holes.any (fun h => match winding h with | some w => decide (w > 0) | none => false)
+          then "bad:hole-counter-clockwise"
         else "ok"
 
 def rfcCheck (doc : J) : String :=
@@ -498,6 +491,17 @@ def run (op : String) (o : Obj) : Except String String := do
     pure ("ok " ++ showJ (shapeJ r.1) ++ " eq=" ++ showBool (decide (r.1.geom = want ∧ r.1.dt = s.dt))
       ++ " dt=" ++ showBool (decide (r.1.dt = s.dt)) ++ " props=" ++ showBool (showJ (.obj r.1.props) = showJ (.obj s.props)))
   else if op = "hist" then runHist o
+  else if op = "imphist" then do
+    -- import, (the caller scrambles the result and rewrites the input object), import again
+    let doc ← fld o "doc"
+    let doc2 := fldOr o "doc2" doc
+    let show1 := fun (d : J) => match importWith (oset o "doc" d) with
+      | .ok r => if showJ r.2 = showJ d then r.1 else r.1 ++ " doc=changed"
+      | .error e => e
+    let r1 := show1 doc
+    let r2 := show1 doc2
+    if r1 = "bad-op" || r2 = "bad-op" then bad
+    else pure ("ok " ++ r1 ++ " ; " ++ r2 ++ " same=" ++ showBool (r1 = r2))
   else if op = "cexport" then do
     let shapes ← collSrcD o
     let doc ← collToGeoJson rt shapes (← optsD o)
@@ -512,7 +516,13 @@ def run (op : String) (o : Obj) : Except String String := do
     let got := r.1.map fun p => match p with
       | .shape s => some (s.geom, s.dt)
       | .coll _ => none
-    pure ("ok " ++ showJ (.arr (parsedListJ r.1)) ++ " eq=" ++ showBool (decide (got = want.map some)))
+    let rings := (match doc with
+      | .obj d => (match oget d "features" with
+          | some (.arr fs) => (fs.map rfcCheck).foldl (fun acc v => if acc = "ok" then v else acc) "ok"
+          | _ => "bad:features")
+      | _ => "bad:document")
+    pure ("ok " ++ showJ (.arr (parsedListJ r.1)) ++ " eq=" ++ showBool (decide (got = want.map some))
+      ++ " rings=" ++ rings)
   else bad
 
 def handle (op : String) (args : List String) : String :=
